@@ -149,9 +149,12 @@ impl MemcacheBinaryConnection {
         }
     }
 
+    /// (local port << 16) | peer port: identifies the connection for the harness
     #[cfg(memcrs_verif)]
-    fn verif_peer_port(&self) -> u64 {
-        self.stream.peer_addr().map(|a| a.port() as u64).unwrap_or(0)
+    pub(crate) fn verif_peer_port(&self) -> u64 {
+        let peer = self.stream.peer_addr().map(|a| a.port() as u64).unwrap_or(0);
+        let local = self.stream.local_addr().map(|a| a.port() as u64).unwrap_or(0);
+        (local << 16) | peer
     }
 
     pub async fn write(&mut self, msg: &BinaryResponse) -> io::Result<()> {
